@@ -101,11 +101,14 @@ func NewPrimary(w *wal.WAL, config *PrimaryConfig) (*Primary, error) {
 	)
 
 	primary := &Primary{
-		wal:               w,
-		batcher:           batcher,
-		compressor:        compressor,
-		sessions:          make(map[string]*ReplicaSession),
-		lastSyncedSeq:     0,
+		wal:        w,
+		batcher:    batcher,
+		compressor: compressor,
+		sessions:   make(map[string]*ReplicaSession),
+		// Everything the log already holds when the primary starts (after a
+		// restart: the recovered log) is on disk; start from there instead
+		// of reporting 0 until the next sync
+		lastSyncedSeq:     w.GetNextSequence() - 1,
 		retentionConfig:   config.RetentionConfig,
 		enableCompression: config.EnableCompression,
 		defaultCodec:      config.CompressionCodec,
